@@ -400,7 +400,11 @@ func cmdCheck(id, tier string) int {
 	}
 	for _, c := range order {
 		fv := byClass[c]
-		rp, min, err := shrinkAndConfirm(p, tier, master, fv, tmp)
+		budget := 2000
+		if matchKnown(known, &fv.V) != nil {
+			budget = 150 // a recorded finding: light minimisation only (the witness must still hold)
+		}
+		rp, min, err := shrinkAndConfirm(p, tier, master, fv, tmp, budget)
 		if err != nil {
 			infra = append(infra, fmt.Sprintf("violation %s (run index %d) did not replay: %v\noriginal message: %s", c, fv.Index, err, firstLines(fv.V.Msg, 40)))
 			continue
@@ -611,14 +615,14 @@ func cmdReplay(path string, verbose bool) int {
 	return 3
 }
 
-func shrinkAndConfirm(p *PropDef, tier string, master uint64, fv FoundViolation, tmp string) (string, *Violation, error) {
+func shrinkAndConfirm(p *PropDef, tier string, master uint64, fv FoundViolation, tmp string, budget int) (string, *Violation, error) {
 	in := filepath.Join(tmp, fmt.Sprintf("v-%d.json", fv.Index))
 	rf := &ReplayFile{Property: p.ID, Tier: tier, MasterSeed: master, RunIndex: fv.Index, RunSeed: fv.Seed, Streams: fv.Tape, Violation: &fv.V, Class: fv.V.Class()}
 	b, _ := json.Marshal(rf)
 	os.WriteFile(in, b, 0666)
 	h := hashString(jsonStr(fv.Tape)) & 0xffffff
 	out := filepath.Join(replayDir(p.ID), fmt.Sprintf("%s-%d-%06x.json", p.ID, fv.Seed, h))
-	cmd := exec.Command(selfExe(), "shrink", "-in", in, "-out", out)
+	cmd := exec.Command(selfExe(), "shrink", "-in", in, "-out", out, "-budget", strconv.Itoa(budget))
 	var se strings.Builder
 	cmd.Stderr = &se
 	if err := cmd.Run(); err != nil {
